@@ -652,6 +652,25 @@ def c01(ctx):
     for sn in (sample_corpus(rng, 1500) if quick else corpus):
         w = rng.choice(wrappers)
         cases.append({"src": w % sn["src"], "media": rng.choice(["ts", "tsx", "js"]), "rules": "all"})
+    # (9) every (construct, twin) of the C08 catalogue in every one-hole context of the C08 catalogue (loop heads, catch parameters,
+    #     assignment patterns, parameter defaults of every function kind, decorators, ...), all rules: panics of analyses that skip a position
+    import props_c08 as P8
+    for p8 in P8.PAIRS:
+        chains8 = [[k8] for k8, c8 in P8.CTX.items() if not k8.startswith("@") and c8[1] == p8[1]]
+        if p8[1] == "S":      # a statement construct reaches the expression positions through a function-like body
+            chains8 += [[k8, inner8] for k8, c8 in P8.CTX.items() if not k8.startswith("@") and c8[1] == "E"
+                        for inner8 in ("arrow-block-body", "object-getter-body")]
+        for ch8 in chains8:
+            if not P8.chain_well_typed(ch8, p8[1]):
+                continue
+            src8, _, jsx8 = P8.assemble(ch8, P8.filler_for(p8[1], p8[2], P8.CTX[ch8[-1]][1]))
+            flags8 = " ".join(P8.CTX[k][6] for k in ch8).split()
+            if p8[1] == "S" and ("top" in flags8):
+                continue
+            m8 = P8.media_for(p8, jsx8 or "tsx" in flags8)
+            if "ts" in flags8 and m8 in ("js", "jsx"):
+                continue
+            cases.append({"src": src8, "media": m8, "rules": "all"})
     # (7) regular-expression heavy files (long digit runs, \u{...} with many hex digits, deep groups), all rules
     import regex as RX
     pats = RX.gen_structured(rng, 1500 if quick else 30000) + RX.gen_deep(rng, 100 if quick else 1500)
